@@ -20,8 +20,13 @@ def run_model(cases, procs: int = 8):
     import threading
     outs = [None] * procs
 
+    def as_read(c):
+        """what the implementation reads from a file is what Python's text mode hands it: every line ending is one newline"""
+        if not c.get('files'): return c
+        return dict(c, files={k: (v.replace('\r\n', '\n').replace('\r', '\n') if isinstance(v, str) else v) for k, v in c['files'].items()})
+
     def feed(i, p, ch):
-        data = ''.join(json.dumps(c) + '\n' for c in ch)
+        data = ''.join(json.dumps(as_read(c)) + '\n' for c in ch)
         o, _ = p.communicate(data)
         outs[i] = o
     ts = [threading.Thread(target=feed, args=(i, p, ch)) for i, (p, ch) in enumerate(ps)]
@@ -34,7 +39,7 @@ def run_model(cases, procs: int = 8):
             # the driver died (stack overflow / panic): rerun this chunk case by case
             lines = []
             for c in ch:
-                q = subprocess.run([str(DMODEL)], input=json.dumps(c) + '\n', capture_output=True, text=True)
+                q = subprocess.run([str(DMODEL)], input=json.dumps(as_read(c)) + '\n', capture_output=True, text=True)
                 l = [x for x in q.stdout.split('\n') if x.strip()]
                 lines.append(l[0] if l and q.returncode == 0 else json.dumps(dict(kind='model-died', rc=q.returncode)))
         for j, l in enumerate(lines):
